@@ -193,8 +193,13 @@ class TriggerHandler:
     def __actions_for_location(self, event, file, line, function, frame):
         actions = []
         for trigger in self._tp_config:
-            if trigger.at_location(event, file, line, function, frame):
-                actions += trigger.actions
+            try:
+                if trigger.at_location(event, file, line, function, frame):
+                    actions += trigger.actions
+            except Exception:
+                # a location that cannot be evaluated (e.g. it needs the source, and there is none) must not stop
+                # the other tracepoints from acting
+                logging.debug("Cannot evaluate location %s", trigger)
         return actions
 
     def __process_call_backs(self, ctx: 'TriggerContext', arg: any, frame: FrameType, event: str, file: str, line: int,
